@@ -22,7 +22,7 @@ Conf == /\ Is("config")
                       Check("config.forcing", Ev.ok => got.forcing = want.forcing),
                       Check("config.grid_module_is_forcing_module", Ev.ok => got.gridmod = got.forcemod),
                       Check("config.tracker", Ev.ok => (got.adv = want.adv /\ got.diffusion = want.diffusion)),
-                      Check("config.release", Ev.ok => (got.cont = want.cont /\ got.freq = want.freq /\ got.names = want.names)),
+                      Check("config.release", Ev.ok => (got.cont = want.cont /\ got.freq = want.freq /\ (IF got.names = <<>> THEN got.header ELSE got.names) = want.names)),
                       Check("config.state", Ev.ok => (got.state_pvars = want.state_pvars /\ got.state_ivars = want.state_ivars)),
                       Check("config.ibm", Ev.ok => (got.has_ibm = want.has_ibm /\ got.ibm_inc = want.ibm_inc)),
                       Check("config.extra_forcing", Ev.ok => got.extra_forcing = want.extra_forcing),
